@@ -68,7 +68,7 @@ impl Property for P {
                     build_variant: 0,
                 };
                 let le = cfg.line_ending().len();
-                let ops = crate::hist::ops_strat_f(crit.size(), mode.buffer_cap(), le, true, 40, !mode.is_async());
+                let ops = crate::hist::ops_strat_f(crit.size(), mode.buffer_cap(), le, true, 40, true);
                 (
                     Just(cfg),
                     vinst_strat(),
